@@ -2,7 +2,7 @@
    Only the property theorems; each is closed by [exact] of a lemma of Proofs*.v and followed by
    Print Assumptions.  rt_* = what Nelua emits for integer = int64 (Helpers.v over CSem.v in the
    dialect given by the scraped base flags); l* = Lua 5.4 (Base.LuaInt). *)
-From C01 Require Import Model Order ProofsArith ProofsDiv ProofsShift ProofsMisc ProofsOrder ProofsFor.
+From C01 Require Import Model Order ProofsArith ProofsDiv ProofsShift ProofsMisc ProofsOrder ProofsFor ProofsOrdA ProofsOrdD ProofsMixed.
 Local Open Scope Z_scope.
 
 (* ---- core 1: integer operators ---- *)
@@ -81,6 +81,13 @@ Theorem C01_mixed_cmp_partial : forall i f, in_i64 i -> Z.abs i <= 2 ^ 53 ->
 Proof. exact mixed_cmp_partial. Qed.
 Print Assumptions C01_mixed_cmp_partial.
 
+(* the reference side is exact: lvm.c LTintfloat / LEintfloat decide i < f and i <= f as mathematical
+   comparisons for every int64 i and every float f (finite, infinite or NaN) *)
+Theorem C01_lua_mixed_cmp_exact : forall i f, in_i64 i ->
+  lua_lt_if i f = exact_lt_if i f /\ lua_le_if i f = exact_le_if i f.
+Proof. intros. split; [apply lua_lt_if_exact|apply lua_le_if_exact]; assumption. Qed.
+Print Assumptions C01_lua_mixed_cmp_exact.
+
 (* ---- core 2: numeric for ---- *)
 Theorem C01_fornum_refuted : ~ fornum_eq_full.
 Proof. exact fornum_refuted. Qed.
@@ -120,6 +127,15 @@ Print Assumptions C01_order_refuted_wrapper.
 Theorem C01_order_refuted_unflagged : exists o, nelua_run fe_w e_unflagged st_w o <> lua_run fe_w e_unflagged st_w.
 Proof. exact order_refuted_unflagged. Qed.
 Print Assumptions C01_order_refuted_unflagged.
+
+(* the strongest true restriction: when no function writes a variable (their effects are events and
+   values only) and every callee the analyzer leaves unmarked has unmarked arguments, the compiled
+   expression leaves the same store, trace and value as Lua for EVERY order of evaluation the C compiler
+   may choose - covering plain C operators/calls and both kinds of statement-expression temporaries *)
+Theorem C01_order_preserved_partial : forall fe e st o,
+  no_writes fe -> se_closed fe e = true -> nelua_run fe e st o = lua_run fe e st.
+Proof. exact order_preserved_partial. Qed.
+Print Assumptions C01_order_preserved_partial.
 
 (* ---- core 4: precedence and associativity ---- *)
 Theorem C01_tables_agree : forall ts, climb nelua_table ts = climb lua_table ts.
